@@ -140,3 +140,287 @@ package parser
 //@         && (forall k int :: {curLineSb.pieces[k]} (0 <= k && k < len(prev(curLineSb.pieces))) ==> curLineSb.pieces[k] == prev(curLineSb.pieces)[k]))
 //@     decreases slen(text) - pos, (slen(word) > 0 ? 1 : 0)
 //@ end
+
+// ---- the recursive-descent parser: uniform frame / state contract (C18, C20) ----
+
+//@ pred StackOK(s seq[ast.Statement]) = len(s) >= 0 && (forall k int :: {s[k]} (0 <= k && k < len(s)) ==> s[k] != nil)
+//@ pred SameStack(a seq[ast.Statement], b seq[ast.Statement]) = len(a) == len(b) && (forall k int :: {a[k]} {b[k]} (0 <= k && k < len(a)) ==> a[k] == b[k])
+// parser state every parse function relies on and re-establishes
+//@ pred PState(p *Parser) = PInv(p) && StackOK(p.breakStack) && StackOK(p.continueStack)
+//@   && p.constants != nil && p.inlineTextsSet != nil && p.inlineTextCounts != nil && p.inlineMovementsSet != nil && p.inlineMovementCounts != nil
+//@ pred PSame(p *Parser, l0 *lexer.Lexer, in0 string) = p.l == l0 && p.l.input == in0
+
+//@ func ParseFrame
+//@   nobody
+//@   params p
+//@   requires [C18:pstate] PState(p)
+//@   modifies fields(p), fields(p.l)
+//@   ensures [C18:pstate] PState(p) && PSame(p, old(p.l), old(p.l.input))
+//@   loopinv [C18:pstate-inv] PState(p) && PSame(p, old(p.l), old(p.l.input))
+//@ end
+
+//@ func ListParserFn
+//@   nobody
+//@   params p, allowMultiple
+//@   include ParseFrame
+//@ end
+
+//@ func (p *Parser) expectPeekVarOrAutoVar
+//@   include ParseFrame
+//@   ensures [C20:stack-balanced] result3 == nil ==> (SameStack(p.breakStack, old(p.breakStack)) && SameStack(p.continueStack, old(p.continueStack)))
+//@   loopinv [C20:stack-balanced-inv] SameStack(p.breakStack, old(p.breakStack)) && SameStack(p.continueStack, old(p.continueStack))
+//@ end
+
+//@ func (p *Parser) parseTopLevelStatement
+//@   include ParseFrame
+//@   modifies p.constants, p.inlineTextsSet, p.inlineTextCounts, p.inlineMovementsSet, p.inlineMovementCounts, allof(ast.CommandStatement.Args)
+//@   ensures [C20:stack-balanced] result1 == nil ==> (SameStack(p.breakStack, old(p.breakStack)) && SameStack(p.continueStack, old(p.continueStack)))
+//@   loopinv [C20:stack-balanced-inv] SameStack(p.breakStack, old(p.breakStack)) && SameStack(p.continueStack, old(p.continueStack))
+//@ end
+
+//@ func (p *Parser) addImplicitData
+//@   include ParseFrame
+//@   modifies p.constants, p.inlineTextsSet, p.inlineTextCounts, p.inlineMovementsSet, p.inlineMovementCounts, allof(ast.CommandStatement.Args)
+//@ end
+
+//@ func (p *Parser) addImplicitTexts
+//@   include ParseFrame
+//@   modifies p.constants, p.inlineTextsSet, p.inlineTextCounts, p.inlineMovementsSet, p.inlineMovementCounts, allof(ast.CommandStatement.Args)
+//@ end
+
+//@ func (p *Parser) addImplicitMovements
+//@   include ParseFrame
+//@   modifies p.constants, p.inlineTextsSet, p.inlineTextCounts, p.inlineMovementsSet, p.inlineMovementCounts, allof(ast.CommandStatement.Args)
+//@ end
+
+//@ func (p *Parser) parseScriptStatement
+//@   include ParseFrame
+//@   ensures [C20:stack-balanced] result2 == nil ==> (SameStack(p.breakStack, old(p.breakStack)) && SameStack(p.continueStack, old(p.continueStack)))
+//@   loopinv [C20:stack-balanced-inv] SameStack(p.breakStack, old(p.breakStack)) && SameStack(p.continueStack, old(p.continueStack))
+//@ end
+
+//@ func (p *Parser) parseBlockStatement
+//@   include ParseFrame
+//@   ensures [C20:stack-balanced] result2 == nil ==> (SameStack(p.breakStack, old(p.breakStack)) && SameStack(p.continueStack, old(p.continueStack)))
+//@   loopinv [C20:stack-balanced-inv] SameStack(p.breakStack, old(p.breakStack)) && SameStack(p.continueStack, old(p.continueStack))
+//@ end
+
+//@ func (p *Parser) parseSwitchBlockStatement
+//@   include ParseFrame
+//@   ensures [C20:stack-balanced] result2 == nil ==> (SameStack(p.breakStack, old(p.breakStack)) && SameStack(p.continueStack, old(p.continueStack)))
+//@   loopinv [C20:stack-balanced-inv] SameStack(p.breakStack, old(p.breakStack)) && SameStack(p.continueStack, old(p.continueStack))
+//@ end
+
+//@ func (p *Parser) parseStatement
+//@   include ParseFrame
+//@   ensures [C20:stack-balanced] result2 == nil ==> (SameStack(p.breakStack, old(p.breakStack)) && SameStack(p.continueStack, old(p.continueStack)))
+//@   loopinv [C20:stack-balanced-inv] SameStack(p.breakStack, old(p.breakStack)) && SameStack(p.continueStack, old(p.continueStack))
+//@ end
+
+//@ func (p *Parser) parseCommandStatement
+//@   include ParseFrame
+//@   ensures [C20:stack-balanced] result2 == nil ==> (SameStack(p.breakStack, old(p.breakStack)) && SameStack(p.continueStack, old(p.continueStack)))
+//@   loopinv [C20:stack-balanced-inv] SameStack(p.breakStack, old(p.breakStack)) && SameStack(p.continueStack, old(p.continueStack))
+//@ end
+
+//@ func (p *Parser) tryParseLabelStatement
+//@   include ParseFrame
+//@ end
+
+//@ func (p *Parser) parseRawStatement
+//@   include ParseFrame
+//@   ensures [C20:stack-balanced] result1 == nil ==> (SameStack(p.breakStack, old(p.breakStack)) && SameStack(p.continueStack, old(p.continueStack)))
+//@   loopinv [C20:stack-balanced-inv] SameStack(p.breakStack, old(p.breakStack)) && SameStack(p.continueStack, old(p.continueStack))
+//@ end
+
+//@ func (p *Parser) parseTextStatement
+//@   include ParseFrame
+//@   ensures [C20:stack-balanced] result1 == nil ==> (SameStack(p.breakStack, old(p.breakStack)) && SameStack(p.continueStack, old(p.continueStack)))
+//@   loopinv [C20:stack-balanced-inv] SameStack(p.breakStack, old(p.breakStack)) && SameStack(p.continueStack, old(p.continueStack))
+//@ end
+
+//@ func (p *Parser) parseTextValue
+//@   include ParseFrame
+//@   ensures [C20:stack-balanced] result2 == nil ==> (SameStack(p.breakStack, old(p.breakStack)) && SameStack(p.continueStack, old(p.continueStack)))
+//@   loopinv [C20:stack-balanced-inv] SameStack(p.breakStack, old(p.breakStack)) && SameStack(p.continueStack, old(p.continueStack))
+//@ end
+
+//@ func (p *Parser) parsePoryswitchHeader
+//@   include ParseFrame
+//@   ensures [C20:stack-balanced] result2 == nil ==> (SameStack(p.breakStack, old(p.breakStack)) && SameStack(p.continueStack, old(p.continueStack)))
+//@   loopinv [C20:stack-balanced-inv] SameStack(p.breakStack, old(p.breakStack)) && SameStack(p.continueStack, old(p.continueStack))
+//@ end
+
+//@ func (p *Parser) parsePoryswitchTextCases
+//@   include ParseFrame
+//@   ensures [C20:stack-balanced] result2 == nil ==> (SameStack(p.breakStack, old(p.breakStack)) && SameStack(p.continueStack, old(p.continueStack)))
+//@   loopinv [C20:stack-balanced-inv] SameStack(p.breakStack, old(p.breakStack)) && SameStack(p.continueStack, old(p.continueStack))
+//@ end
+
+//@ func (p *Parser) parsePoryswitchTextStatement
+//@   include ParseFrame
+//@   ensures [C20:stack-balanced] result2 == nil ==> (SameStack(p.breakStack, old(p.breakStack)) && SameStack(p.continueStack, old(p.continueStack)))
+//@   loopinv [C20:stack-balanced-inv] SameStack(p.breakStack, old(p.breakStack)) && SameStack(p.continueStack, old(p.continueStack))
+//@ end
+
+//@ func (p *Parser) parseMovementStatement
+//@   include ParseFrame
+//@   ensures [C20:stack-balanced] result1 == nil ==> (SameStack(p.breakStack, old(p.breakStack)) && SameStack(p.continueStack, old(p.continueStack)))
+//@   loopinv [C20:stack-balanced-inv] SameStack(p.breakStack, old(p.breakStack)) && SameStack(p.continueStack, old(p.continueStack))
+//@ end
+
+//@ func parseMovementValue
+//@   include ParseFrame
+//@   ensures [C20:stack-balanced] result1 == nil ==> (SameStack(p.breakStack, old(p.breakStack)) && SameStack(p.continueStack, old(p.continueStack)))
+//@   loopinv [C20:stack-balanced-inv] SameStack(p.breakStack, old(p.breakStack)) && SameStack(p.continueStack, old(p.continueStack))
+//@ end
+
+//@ func parseMovementValue$1
+//@   include ParseFrame
+//@   implements ListParserFn
+//@   ensures [C20:stack-balanced] result1 == nil ==> (SameStack(p.breakStack, old(p.breakStack)) && SameStack(p.continueStack, old(p.continueStack)))
+//@   loopinv [C20:stack-balanced-inv] SameStack(p.breakStack, old(p.breakStack)) && SameStack(p.continueStack, old(p.continueStack))
+//@ end
+
+//@ func (p *Parser) parsePoryswitchListStatement
+//@   include ParseFrame
+//@   fnparam parseFunc implements ListParserFn
+//@   ensures [C20:stack-balanced] result1 == nil ==> (SameStack(p.breakStack, old(p.breakStack)) && SameStack(p.continueStack, old(p.continueStack)))
+//@   loopinv [C20:stack-balanced-inv] SameStack(p.breakStack, old(p.breakStack)) && SameStack(p.continueStack, old(p.continueStack))
+//@ end
+
+//@ func (p *Parser) parsePoryswitchListCases
+//@   include ParseFrame
+//@   fnparam parseFunc implements ListParserFn
+//@   ensures [C20:stack-balanced] result1 == nil ==> (SameStack(p.breakStack, old(p.breakStack)) && SameStack(p.continueStack, old(p.continueStack)))
+//@   loopinv [C20:stack-balanced-inv] SameStack(p.breakStack, old(p.breakStack)) && SameStack(p.continueStack, old(p.continueStack))
+//@ end
+
+//@ func (p *Parser) parseMartStatement
+//@   include ParseFrame
+//@   ensures [C20:stack-balanced] result1 == nil ==> (SameStack(p.breakStack, old(p.breakStack)) && SameStack(p.continueStack, old(p.continueStack)))
+//@   loopinv [C20:stack-balanced-inv] SameStack(p.breakStack, old(p.breakStack)) && SameStack(p.continueStack, old(p.continueStack))
+//@ end
+
+//@ func parseMartValue
+//@   include ParseFrame
+//@   implements ListParserFn
+//@   ensures [C20:stack-balanced] result1 == nil ==> (SameStack(p.breakStack, old(p.breakStack)) && SameStack(p.continueStack, old(p.continueStack)))
+//@   loopinv [C20:stack-balanced-inv] SameStack(p.breakStack, old(p.breakStack)) && SameStack(p.continueStack, old(p.continueStack))
+//@ end
+
+//@ func (p *Parser) parseMapscriptsStatement
+//@   include ParseFrame
+//@   ensures [C20:stack-balanced] result2 == nil ==> (SameStack(p.breakStack, old(p.breakStack)) && SameStack(p.continueStack, old(p.continueStack)))
+//@   loopinv [C20:stack-balanced-inv] SameStack(p.breakStack, old(p.breakStack)) && SameStack(p.continueStack, old(p.continueStack))
+//@ end
+
+//@ func (p *Parser) parseMovesOperator
+//@   include ParseFrame
+//@   ensures [C20:stack-balanced] result1 == nil ==> (SameStack(p.breakStack, old(p.breakStack)) && SameStack(p.continueStack, old(p.continueStack)))
+//@   loopinv [C20:stack-balanced-inv] SameStack(p.breakStack, old(p.breakStack)) && SameStack(p.continueStack, old(p.continueStack))
+//@ end
+
+//@ func (p *Parser) parseFormatStringOperator
+//@   include ParseFrame
+//@   ensures [C20:stack-balanced] result3 == nil ==> (SameStack(p.breakStack, old(p.breakStack)) && SameStack(p.continueStack, old(p.continueStack)))
+//@   loopinv [C20:stack-balanced-inv] SameStack(p.breakStack, old(p.breakStack)) && SameStack(p.continueStack, old(p.continueStack))
+//@ end
+
+//@ func (p *Parser) parseIfStatement
+//@   include ParseFrame
+//@   ensures [C20:stack-balanced] result2 == nil ==> (SameStack(p.breakStack, old(p.breakStack)) && SameStack(p.continueStack, old(p.continueStack)))
+//@   loopinv [C20:stack-balanced-inv] SameStack(p.breakStack, old(p.breakStack)) && SameStack(p.continueStack, old(p.continueStack))
+//@ end
+
+//@ func (p *Parser) parseWhileStatement
+//@   include ParseFrame
+//@   ensures [C20:stack-balanced] result2 == nil ==> (SameStack(p.breakStack, old(p.breakStack)) && SameStack(p.continueStack, old(p.continueStack)))
+//@   loopinv [C20:stack-balanced-inv] SameStack(p.breakStack, old(p.breakStack)) && SameStack(p.continueStack, old(p.continueStack))
+//@ end
+
+//@ func (p *Parser) parseDoWhileStatement
+//@   include ParseFrame
+//@   ensures [C20:stack-balanced] result2 == nil ==> (SameStack(p.breakStack, old(p.breakStack)) && SameStack(p.continueStack, old(p.continueStack)))
+//@   loopinv [C20:stack-balanced-inv] SameStack(p.breakStack, old(p.breakStack)) && SameStack(p.continueStack, old(p.continueStack))
+//@ end
+
+//@ func (p *Parser) parseBreakStatement
+//@   include ParseFrame
+//@   ensures [C20:stack-balanced] result1 == nil ==> (SameStack(p.breakStack, old(p.breakStack)) && SameStack(p.continueStack, old(p.continueStack)))
+//@   loopinv [C20:stack-balanced-inv] SameStack(p.breakStack, old(p.breakStack)) && SameStack(p.continueStack, old(p.continueStack))
+//@ end
+
+//@ func (p *Parser) parseContinueStatement
+//@   include ParseFrame
+//@   ensures [C20:stack-balanced] result1 == nil ==> (SameStack(p.breakStack, old(p.breakStack)) && SameStack(p.continueStack, old(p.continueStack)))
+//@   loopinv [C20:stack-balanced-inv] SameStack(p.breakStack, old(p.breakStack)) && SameStack(p.continueStack, old(p.continueStack))
+//@ end
+
+//@ func (p *Parser) parseSwitchStatement
+//@   include ParseFrame
+//@   ensures [C20:stack-balanced] result3 == nil ==> (SameStack(p.breakStack, old(p.breakStack)) && SameStack(p.continueStack, old(p.continueStack)))
+//@   loopinv [C20:stack-balanced-inv] SameStack(p.breakStack, old(p.breakStack)) && SameStack(p.continueStack, old(p.continueStack))
+//@ end
+
+//@ func (p *Parser) parseConditionExpression
+//@   include ParseFrame
+//@   ensures [C20:stack-balanced] result2 == nil ==> (SameStack(p.breakStack, old(p.breakStack)) && SameStack(p.continueStack, old(p.continueStack)))
+//@   loopinv [C20:stack-balanced-inv] SameStack(p.breakStack, old(p.breakStack)) && SameStack(p.continueStack, old(p.continueStack))
+//@ end
+
+//@ func (p *Parser) parseBooleanExpression
+//@   include ParseFrame
+//@   ensures [C20:stack-balanced] result2 == nil ==> (SameStack(p.breakStack, old(p.breakStack)) && SameStack(p.continueStack, old(p.continueStack)))
+//@   loopinv [C20:stack-balanced-inv] SameStack(p.breakStack, old(p.breakStack)) && SameStack(p.continueStack, old(p.continueStack))
+//@ end
+
+//@ func (p *Parser) parseRightSideExpression
+//@   include ParseFrame
+//@   ensures [C20:stack-balanced] result2 == nil ==> (SameStack(p.breakStack, old(p.breakStack)) && SameStack(p.continueStack, old(p.continueStack)))
+//@   loopinv [C20:stack-balanced-inv] SameStack(p.breakStack, old(p.breakStack)) && SameStack(p.continueStack, old(p.continueStack))
+//@ end
+
+//@ func (p *Parser) parseLeafBooleanExpression
+//@   include ParseFrame
+//@   ensures [C20:stack-balanced] result2 == nil ==> (SameStack(p.breakStack, old(p.breakStack)) && SameStack(p.continueStack, old(p.continueStack)))
+//@   loopinv [C20:stack-balanced-inv] SameStack(p.breakStack, old(p.breakStack)) && SameStack(p.continueStack, old(p.continueStack))
+//@ end
+
+//@ func (p *Parser) parseConditionVarOperator
+//@   include ParseFrame
+//@   ensures [C20:stack-balanced] result0 == nil ==> (SameStack(p.breakStack, old(p.breakStack)) && SameStack(p.continueStack, old(p.continueStack)))
+//@   loopinv [C20:stack-balanced-inv] SameStack(p.breakStack, old(p.breakStack)) && SameStack(p.continueStack, old(p.continueStack))
+//@ end
+
+//@ func (p *Parser) parseConditionFlagLikeOperator
+//@   include ParseFrame
+//@   ensures [C20:stack-balanced] result0 == nil ==> (SameStack(p.breakStack, old(p.breakStack)) && SameStack(p.continueStack, old(p.continueStack)))
+//@   loopinv [C20:stack-balanced-inv] SameStack(p.breakStack, old(p.breakStack)) && SameStack(p.continueStack, old(p.continueStack))
+//@ end
+
+//@ func (p *Parser) parsePoryswitchStatement
+//@   include ParseFrame
+//@   ensures [C20:stack-balanced] result2 == nil ==> (SameStack(p.breakStack, old(p.breakStack)) && SameStack(p.continueStack, old(p.continueStack)))
+//@   loopinv [C20:stack-balanced-inv] SameStack(p.breakStack, old(p.breakStack)) && SameStack(p.continueStack, old(p.continueStack))
+//@ end
+
+//@ func (p *Parser) parsePoryswitchStatementCases
+//@   include ParseFrame
+//@   ensures [C20:stack-balanced] result2 == nil ==> (SameStack(p.breakStack, old(p.breakStack)) && SameStack(p.continueStack, old(p.continueStack)))
+//@   loopinv [C20:stack-balanced-inv] SameStack(p.breakStack, old(p.breakStack)) && SameStack(p.continueStack, old(p.continueStack))
+//@ end
+
+//@ func (p *Parser) parsePoryswitchStatements
+//@   include ParseFrame
+//@   ensures [C20:stack-balanced] result2 == nil ==> (SameStack(p.breakStack, old(p.breakStack)) && SameStack(p.continueStack, old(p.continueStack)))
+//@   loopinv [C20:stack-balanced-inv] SameStack(p.breakStack, old(p.breakStack)) && SameStack(p.continueStack, old(p.continueStack))
+//@ end
+
+//@ func (p *Parser) parseConstant
+//@   include ParseFrame
+//@   modifies p.constants, p.inlineTextsSet, p.inlineTextCounts, p.inlineMovementsSet, p.inlineMovementCounts, allof(ast.CommandStatement.Args)
+//@   ensures [C20:stack-balanced] result0 == nil ==> (SameStack(p.breakStack, old(p.breakStack)) && SameStack(p.continueStack, old(p.continueStack)))
+//@   loopinv [C20:stack-balanced-inv] SameStack(p.breakStack, old(p.breakStack)) && SameStack(p.continueStack, old(p.continueStack))
+//@ end
+
